@@ -30,13 +30,44 @@ type connopsCfg struct {
 	joinLeave  bool
 	horizon    time.Duration // virtual-time window during the concurrent phase (timer-first deviations)
 	delta      bool          // the actor subscribes with fossil delta (positioned channels)
-	bound      int           // deviation bound override for this scenario (0: the set's bound)
+	bound      int           // deviation bound override for this scenario (0: the set's bound; -1: bound 0)
+	slowBroker bool          // Broker.Subscribe of connopsSlowCh takes 7 s of virtual time (op oslow holds the channel's subLock that long)
 }
+
+// connopsSlowBroker: the environment answer "the broker is slow": Subscribe for one channel
+// takes 7 s of virtual time. Node.addSubscription calls it holding the channel's subLock.
+type connopsSlowBroker struct {
+	Broker
+	ch string
+}
+
+func (b connopsSlowBroker) Subscribe(chs ...string) error {
+	for _, ch := range chs {
+		if ch == b.ch && !vschedQuiet() {
+			vsched.Sleep(int64(7 * time.Second))
+		}
+	}
+	return b.Broker.Subscribe(chs...)
+}
+
+// connopsSlowCh is a channel whose subLock is the one of "ch" (the lock table is striped by a hash
+// of the channel name; two channels sharing a stripe is an ordinary situation).
+var connopsSlowCh = func() string {
+	for i := 0; ; i++ {
+		name := fmt.Sprintf("slow%d", i)
+		if index(name, numSubLocks) == index("ch", numSubLocks) {
+			return name
+		}
+	}
+}()
 
 func (c connopsCfg) name() string {
 	n := fmt.Sprintf("%s/presub%v/async%v/pos%v/pres%v/jl%v/h%d", strings.Join(c.ops, "+"), c.presub, c.async, c.positioned, c.presence, c.joinLeave, c.horizon/time.Second)
 	if c.delta {
 		n += "/delta"
+	}
+	if c.slowBroker {
+		n += "/slowbroker"
 	}
 	return n
 }
@@ -65,6 +96,9 @@ func connopsRegister(s connopsSet) {
 			if c.bound > b {
 				b, sh = c.bound, 4
 			}
+			if c.bound < 0 { // all orders at blocking points only
+				b, sh = 0, 2
+			}
 			out = append(out, vsched.Variant{Name: c.name(), Bound: b, Shards: sh, BudgetS: budget})
 		}
 		return out
@@ -89,6 +123,7 @@ func init() {
 	withH := func(x connopsCfg, h time.Duration) connopsCfg { x.horizon = h; return x }
 	withDelta := func(x connopsCfg) connopsCfg { x.delta = true; return x }
 	withB := func(x connopsCfg, b int) connopsCfg { x.bound = b; return x }
+	withSlow := func(x connopsCfg) connopsCfg { x.slowBroker = true; return x }
 	connopsRegister(connopsSet{prop: "C04", qBound: 1, tBound: 2,
 		doc: "marker delivered to A iff A reports itself subscribed, at most once; exactly one hub routing entry with A's generation iff subscribed; none for a closed connection",
 		quick: []connopsCfg{
@@ -96,6 +131,10 @@ func init() {
 			c(false, false, false, "nsub", "nunsub"), c(false, true, false, "sub", "disc"), c(true, true, false, "unsub,sub", "nunsub"), c(false, true, true, "sub,unsub"),
 			withH(c(false, true, false, "sub,unsub,sub"), 6*time.Second),
 			withDelta(c(true, false, true, "unsub", "pub")), withDelta(c(true, false, false, "unsub", "pub")),
+			// a server-side subscribe held up on the channel's subLock stripe (slow broker answering another
+			// channel's first subscribe) beyond the 5 s wait gate of a client unsubscribe, then a retry and a
+			// fresh subscribe queue up behind it: no deviation needed, virtual time advances at quiescence
+			withB(withSlow(withH(c(false, false, false, "oslow", "nsub", "unsub,unsub,sub"), 8*time.Second)), -1),
 		},
 		thor: []connopsCfg{
 			c(false, true, false, "sub,unsub", "nsub"), c(true, false, false, "unsub", "nsub", "disc"), c(false, true, true, "sub,unsub", "pub"),
@@ -108,6 +147,7 @@ func init() {
 	connopsRegister(connopsSet{prop: "C10", qBound: 1, tBound: 2,
 		doc: "no publication / join / leave push for ch on A before the subscribe reply (or subscribe push) and none after the unsubscribe reply (or unsubscribe push) until a new bracket opens",
 		quick: []connopsCfg{
+			withB(withSlow(withH(c(false, false, false, "oslow", "nsub", "unsub,unsub,sub"), 8*time.Second)), -1), // see C04
 			c(false, false, false, "sub", "pub"), c(false, false, true, "sub", "pub"), c(true, false, false, "unsub", "pub"), c(true, false, true, "unsub", "pub"),
 			c(false, false, false, "nsub", "pub"), c(true, false, false, "nunsub", "pub"), c(false, false, false, "sub", "ojoin"), c(true, false, false, "unsub", "ojoin"),
 			c(true, false, false, "unsub,sub", "pub"), c(false, true, false, "sub,unsub", "pub"),
@@ -119,6 +159,7 @@ func init() {
 	connopsRegister(connopsSet{prop: "C07", qBound: 1, tBound: 2,
 		doc: "observer's join/leave pushes for A alternate join,leave,...; a still-subscribed A ends with join, otherwise with leave or nothing; number of leaves equals the number of unsubscribe callbacks; number of joins equals the number of established subscriptions (ended + still open)",
 		quick: []connopsCfg{
+			withB(withSlow(withH(c(false, false, false, "oslow", "nsub", "unsub,unsub,sub"), 8*time.Second)), -1), // see C04
 			c(false, true, false, "sub,unsub"), c(false, true, false, "sub", "disc"), c(false, false, false, "sub", "ndisc"), c(false, false, false, "nsub", "disc"),
 			c(false, false, false, "nsub", "nunsub"), c(false, true, false, "sub,close"), c(true, false, false, "unsub,sub", "disc"),
 		},
@@ -126,6 +167,7 @@ func init() {
 	connopsRegister(connopsSet{prop: "C06", qBound: 1, tBound: 2,
 		doc: "at quiescence the channel presence contains A (with its user) iff A holds a subscription with presence",
 		quick: []connopsCfg{
+			withB(withSlow(withH(c(false, false, false, "oslow", "nsub", "unsub,unsub,sub"), 8*time.Second)), -1), // see C04
 			c(false, false, false, "sub", "tick"), c(true, false, false, "unsub", "tick"), c(true, false, false, "disc", "tick"), c(false, true, false, "sub,unsub", "tick"),
 			c(true, false, false, "unsub,sub", "tick"), c(false, false, false, "nsub", "tick"), c(true, false, false, "nunsub", "tick"),
 		},
@@ -133,6 +175,7 @@ func init() {
 	connopsRegister(connopsSet{prop: "C05", qBound: 1, tBound: 2,
 		doc: "after A is closed and operations settle: no hub client/user/session entry, no routing entry, no presence entry, subscription and connection gauges back to the values before A connected",
 		quick: []connopsCfg{
+			withB(withSlow(withH(c(false, false, false, "oslow", "nsub", "unsub,unsub,sub"), 8*time.Second)), -1), // see C04
 			c(false, false, false, "sub", "disc"), c(false, true, false, "sub,close"), c(false, false, true, "sub", "ndisc"), c(false, false, false, "nsub", "disc"),
 			c(true, false, false, "tick", "disc"), c(true, true, false, "unsub,sub,close"), c(false, true, true, "sub", "disc"),
 		},
@@ -140,6 +183,7 @@ func init() {
 	connopsRegister(connopsSet{prop: "C08", qBound: 1, tBound: 2,
 		doc: "callback log: disconnect at most once and only after connect; no alive after disconnect; exactly one unsubscribe callback per established subscription that ended; none of A's callbacks before its connect callback",
 		quick: []connopsCfg{
+			withB(withSlow(withH(c(false, false, false, "oslow", "nsub", "unsub,unsub,sub"), 8*time.Second)), -1), // see C04
 			c(true, false, false, "tick", "disc"), c(false, false, false, "sub", "disc"), c(true, false, false, "unsub", "disc"), c(true, false, false, "nunsub", "close"),
 			c(true, false, false, "disc", "ndisc"), c(false, true, false, "sub,unsub"), c(true, false, false, "unsub", "nunsub"),
 		},
@@ -203,6 +247,9 @@ func connopsBody(cfg connopsCfg, prop string) func() {
 				}
 			})
 		})
+		if cfg.slowBroker {
+			n.SetBroker(connopsSlowBroker{Broker: n.broker, ch: connopsSlowCh})
+		}
 		if err := n.Run(); err != nil {
 			panic(err)
 		}
@@ -549,6 +596,13 @@ func connopsStep(op string, cfg connopsCfg, n *Node, act *vClient, publish func(
 		publish("p")
 	case "tick":
 		act.c.updatePresence()
+	case "oslow":
+		// another connection is the first subscriber of a channel on the same subLock stripe; the
+		// broker takes 7 s for it (cfg.slowBroker), the stripe stays locked that long
+		o3 := vNewClient(n, vNewTransport(), &Credentials{UserID: "o3"})
+		o3.connect()
+		o3.subscribe(connopsSlowCh)
+		_ = o3.close() // leaves nothing behind in the hub and the gauges
 	case "ojoin":
 		// another connection joins and leaves the channel
 		o2 := vNewClient(n, vNewTransport(), &Credentials{UserID: "o2"})
